@@ -339,10 +339,12 @@ def _bind(func, args, kwargs):
 def _n_outputs(func):
     import ast as _ast
 
+    from .common import return_exprs
+
     n = 1
-    for nd in _ast.walk(func.node):
-        if isinstance(nd, _ast.Return) and isinstance(nd.value, _ast.Tuple):
-            n = max(n, len(nd.value.elts))
+    for v in return_exprs(func):
+        if isinstance(v, _ast.Tuple):
+            n = max(n, len(v.elts))
     return n
 
 
